@@ -45,7 +45,7 @@ func applyPoison(d *apd.Decimal, kind string) {
 }
 
 var regCtx3 = []string{"Add", "Sub", "Mul", "Quo", "QuoInteger", "Rem", "Pow", "Cmp"}
-var regRead1 = []string{"Sign", "String", "Text", "Sprintf", "Int64", "Float64", "Decompose", "MarshalText"}
+var regRead1 = []string{"Sign", "CondInfo", "String", "Text", "Sprintf", "Int64", "Float64", "Decompose", "MarshalText"}
 var regCtx2 = []string{"Abs", "Neg", "Round", "Sqrt", "Cbrt", "Exp", "Ln", "Log10", "RoundToIntegralValue", "RoundToIntegralExact", "Ceil", "Floor", "Reduce"}
 
 // GenReg draws a run of the register machine. mode: c05 | c06 | both.
@@ -202,13 +202,29 @@ func GenReg(seed, run uint64, tier, mode string) *plan.Plan {
 				st.Op = pick(r, c18DecSet)
 				st.N = int64(r.U64()>>uint(r.Intn(64))) - int64(r.Intn(1000))
 				st.S = GenParseString(r)
-			case k < 97:
-				if r.Bool() {
-					st.Op = "CtxSetString"
-				} else {
-					st.Op = "CtxNewFromString"
-				}
+			case k < 96:
+				st.Op = []string{"CtxSetString", "CtxNewFromString", "PkgNewFromString"}[r.Intn(3)]
 				st.S = GenParseString(r)
+			case k < 99:
+				// ErrDecimal wrappers, each call on a fresh ErrDecimal (the latch
+				// itself is C03's subject): destination state and aliasing must
+				// not matter to a wrapper either
+				switch r.Intn(5) {
+				case 0, 1:
+					st.Op = pick(r, latchOps3)
+					st.X = opnd(st.D)
+					st.Y = opnd(st.D, st.X)
+				case 2, 3:
+					st.Op = pick(r, latchOps2)
+					st.X = opnd(st.D)
+				default:
+					st.Op = "EDQuantize"
+					st.X = opnd(st.D)
+					st.N = int64(r.Range(-12, 6))
+				}
+				if aliasOn && r.Chance(1, 3) {
+					st.X = st.D
+				}
 			default:
 				// read-only methods: operands must stay untouched
 				if r.Bool() {
@@ -347,6 +363,10 @@ func reEvaluate(ring []recent, addViol func(plan.Violation), now int, st map[str
 			continue
 		}
 		a := &Args{C: BuildCtx(rc.c), N: rc.n, S: rc.s}
+		if rc.def.CtxName != "" {
+			ed := apd.MakeErrDecimal(a.C)
+			a.ED = &ed
+		}
 		if rc.x != nil {
 			a.X = BuildDec(*rc.x)
 		}
@@ -407,6 +427,10 @@ func aliasReproduces(def *OpDef, a *Args, rc *recent, want Outcome, traps apd.Co
 		return new(apd.Decimal)
 	}
 	b := &Args{C: a.C, N: a.N, S: a.S, X: ox, Y: oy, D: pickObj(a.D), I: pickObj(a.I), F: pickObj(a.F)}
+	if def.CtxName != "" {
+		ed := apd.MakeErrDecimal(a.C)
+		b.ED = &ed
+	}
 	beginOp(4 * soloOpCap)
 	got := Exec(def, b)
 	if got.Panic != want.Panic || got.Err != want.Err || got.Cond != want.Cond || got.Aux != want.Aux {
@@ -419,6 +443,10 @@ func aliasReproduces(def *OpDef, a *Args, rc *recent, want Outcome, traps apd.Co
 // fresh zero destination (and fresh zero Modf outputs).
 func cleanRoom(def *OpDef, a *Args) (Outcome, *Args) {
 	cr := &Args{C: a.C, N: a.N, S: a.S}
+	if def.CtxName != "" {
+		ed := apd.MakeErrDecimal(a.C)
+		cr.ED = &ed
+	}
 	cr.X = cloneDec(a.X)
 	cr.Y = cloneDec(a.Y)
 	if a.D != nil {
@@ -547,6 +575,10 @@ func RunReg(p *plan.Plan) *plan.Result {
 		// snapshots of everything
 		for i, d := range all {
 			SnapDec(d, &snaps[i])
+		}
+		if def.CtxName != "" {
+			ed := apd.MakeErrDecimal(a.C)
+			a.ED = &ed
 		}
 		beginOp(20*n0 + 2_000_000)
 		got := Exec(def, &a)
@@ -762,6 +794,10 @@ func ReHistory(path string, seed uint64, max int) (n int, viols []plan.Violation
 			continue
 		}
 		a := &Args{C: BuildCtx(rec.Ctx), N: rec.N, S: rec.S}
+		if def.CtxName != "" {
+			ed := apd.MakeErrDecimal(a.C)
+			a.ED = &ed
+		}
 		if rec.X != nil {
 			a.X = BuildDec(*rec.X)
 		}
